@@ -225,9 +225,9 @@ CLAIMED["C01"] = dict(
          "stop/skip effects the line verdict is the AND (OR in OR mode) of the component votes evaluated left to right, each in the "
          "state left by its predecessors (c01_toplevel). Tie: suite `interp` runs generated programs through the real code and the "
          "Lean interpreter+run loop (lines, variables, flags, counters, printouts) and judges the real run against the documented "
-         "meaning (spec_eval) — model-vs-code breaks and spec violations are reported separately. Source tie (T): `CsvPath._consider_line` is translated from /repo's working tree to Lean on every run (heap mode) and proved to compute the run-loop model's `considerLine` for every contract-keeping matcher (Props/RunTie.consider_line_source_is_model).",
+         "meaning (spec_eval) — model-vs-code breaks and spec violations are reported separately. Source tie (T): `CsvPath._consider_line` is translated from /repo's working tree to Lean on every run (heap mode) and proved to compute the run-loop model's `considerLine` for every contract-keeping matcher (Props/RunTie.consider_line_source_is_model). `Matcher.matches` — the loop over the match components, the stop and skip cuts, the AND/OR fold of the votes — is translated too (Generated/CoreMatches.lean; `for` loops over object lists since round 7) and proved to compute the abstract top level `Model.MatchTop.matchLine` for every number of components and every component that keeps the stated contract (no onmatch look-ahead); the interpreter model's top level is an instance of the same definition (Props/MatchTie).",
     note=INTERP_NOTE,
-    technique="Lean 4 proof (run-loop invariant; induction over the component list) + source translator with bridging theorem (_consider_line) + interpreter-model correspondence + reference-semantics oracle",
+    technique="Lean 4 proof (run-loop invariant; induction over the component list) + source translator with bridging theorems (_consider_line, Matcher.matches incl. its loop) + interpreter-model correspondence + reference-semantics oracle",
     design="6/C01",
 )
 CLAIMED["C03"] = dict(
@@ -262,9 +262,9 @@ CLAIMED["C13"] = dict(
          "and skip is cleared for the next line (c13_stop_cut, c13_skip_cut). Tie: suite `interp` with conditional "
          "stop/skip/advance/last among side-effecting components over files with interior/trailing blanks and scan windows, compared "
          "with the Lean model and judged by the reference semantics (absence of later effects); suite `lookahead` judges stop/skip beside "
-         "an onmatch look-ahead directly. Source tie (T): `CsvPath._consider_line` (with `raise_match_count_if`, `stop`, `LineMonitor.is_last_line_and_blank`) is translated from /repo's working tree to Lean on every run (heap mode, Generated/CoreConsiderLine.lean) and proved to compute the run-loop model's `considerLine` for every matcher that keeps the stated contract (Props/RunTie.consider_line_source_is_model).",
+         "an onmatch look-ahead directly. Source tie (T): `CsvPath._consider_line` (with `raise_match_count_if`, `stop`, `LineMonitor.is_last_line_and_blank`) is translated from /repo's working tree to Lean on every run (heap mode, Generated/CoreConsiderLine.lean) and proved to compute the run-loop model's `considerLine` for every matcher that keeps the stated contract (Props/RunTie.consider_line_source_is_model). `Matcher.matches` — the loop over the match components, the stop and skip cuts, the AND/OR fold of the votes — is translated too (Generated/CoreMatches.lean; `for` loops over object lists since round 7) and proved to compute the abstract top level `Model.MatchTop.matchLine` for every number of components and every component that keeps the stated contract (no onmatch look-ahead); the interpreter model's top level is an instance of the same definition (Props/MatchTie).",
     note=INTERP_NOTE,
-    technique="Lean 4 proof (case analysis of the run-loop step and the component loop) + source translator with bridging theorem (_consider_line) + correspondence + oracle",
+    technique="Lean 4 proof (case analysis of the run-loop step and the component loop) + source translator with bridging theorems (_consider_line, Matcher.matches incl. its loop) + correspondence + oracle",
     design="6/C13",
 )
 
